@@ -60,9 +60,13 @@ def ensure_driver():
             raise InfraError('driver build failed:\n' + r.stdout[-3000:])
 
 
-def extract(profile='dev', repo=REPO, packages=None, tag=None, need=None):
+def extract(profile='dev', repo=REPO, packages=None, tag=None, need=None, features=None):
     if tag is None:
         tag = os.environ.get('CBV_TAG', '')
+    if packages:
+        # a per-package configuration (no workspace-wide feature unification): its own cache key and target directory
+        import hashlib as _h
+        tag = '-p' + _h.sha1((' '.join(packages) + '|' + (features or '')).encode()).hexdigest()[:8] + tag
     """run the driver over the workspace; returns the directory holding the fact files.
     Cached by content hash of the tree, the driver and the configuration."""
     ensure_driver()
@@ -98,6 +102,8 @@ def extract(profile='dev', repo=REPO, packages=None, tag=None, need=None):
         })
         env.pop('RUSTC_WRAPPER', None)
         sel = '--workspace' if not packages else ' '.join('-p ' + p for p in packages)
+        if features is not None:
+            sel += ' --features %s' % features if features else ''
         cmd = 'cargo +nightly check --offline %s --lib --bins %s' % (sel, '--release' if profile == 'release' else '')
         r = sh(cmd, cwd=repo, env=env)
         if r.returncode != 0:
@@ -221,6 +227,18 @@ class Ctx:
     def read(self, rel):
         with open(os.path.join(self.repo, rel)) as fh:
             return fh.read()
+
+    def facts_for(self, packages, features=None, profile=None):
+        """fact base of a per-package build (`cargo check -p ...`): the configuration a component is really shipped in,
+        without the feature unification of a whole-workspace build"""
+        profile = profile or self.profile
+        key = (profile, tuple(packages), features)
+        if key not in self._facts:
+            d = extract(profile, self.repo, packages=list(packages), need=1, features=features)
+            self._facts[key] = mir.Facts(d)
+            self.configs.append('%s profile: cargo +nightly check %s%s --lib --bins, -Zmir-opt-level=0' % (
+                profile, ' '.join('-p ' + p for p in packages), ' --features ' + features if features else ''))
+        return self._facts[key]
 
 
 class Check:
